@@ -293,11 +293,11 @@ def execute(plan, tape):
 
 def check_result(plan, res, out, refs, axis, n0, n1):
     import pandas as pd
-    ok_shape = isinstance(out, list) and len(out) == n0 and all(
-        isinstance(r, list) and len(r) == n1 for r in out)
+    ok_shape = isinstance(out, (list, tuple)) and len(out) == n0 and all(
+        isinstance(r, (list, tuple)) and len(r) == n1 for r in out)
     if not ok_shape:
         got = (len(out), [len(r) if hasattr(r, '__len__') else '?' for r in out]) \
-            if isinstance(out, list) else type(out).__name__
+            if isinstance(out, (list, tuple)) else type(out).__name__
         res.violate('shape-mismatch', 'nested-shape', 'expected nested list %dx%d, got %s' % (n0, n1, got))
         return
     for i in range(n0):
@@ -330,7 +330,7 @@ def check_result(plan, res, out, refs, axis, n0, n1):
         for k in range(n):
             if refs[k][0] != 'ok':
                 continue
-            got = out[k] if axis == 0 else [out[i][k] for i in range(n0)]
+            got = list(out[k]) if axis == 0 else [out[i][k] for i in range(n0)]
             d = diff(got, refs[k][1])
             if d:
                 other = [a for a in range(n) if a != k and refs[a][0] == 'ok' and not diff(got, refs[a][1])]
